@@ -1,5 +1,5 @@
 (* C15 (part B) — specification vocabulary and lemmas for Model/Reloader.v. *)
-From Coq Require Import List NArith Bool Lia.
+From Coq Require Import List NArith Bool Arith Lia.
 Import ListNotations.
 From L4 Require Import Common.Str Model.Reloader.
 
@@ -434,5 +434,84 @@ Section ReloaderProofs.
     /\ l_running l = negb (existsb stops h).
   Proof.
     intros Hp Hh. exact (follows_gen h _ _ _ (init_tracks m0 t0 a0 rate0 n0 Hp) Hh).
+  Qed.
+  (* ---------------- the thread as a whole: init_file, and what it sleeps ---------------- *)
+
+  (* the k-th sleep is the rate the loop holds after k polls, as long as it runs; a stopped thread never sleeps again *)
+  Lemma sleeps_spec h : forall l k,
+    nth_error (sleeps cfg parse l h) k =
+    if Nat.leb k (length h) && l_running (run l (firstn k h)) then Some (l_rate (run l (firstn k h))) else None.
+  Proof.
+    induction h as [|f h IH]; intros l k.
+    - cbn [sleeps length]. destruct (l_running l) eqn:Hr.
+      + destruct k as [|k]; cbn [nth_error firstn]; [change (run l []) with l; rewrite Hr; reflexivity|].
+        destruct k; reflexivity.
+      + rewrite firstn_nil. change (run l []) with l. rewrite Hr, andb_false_r. destruct k; reflexivity.
+    - cbn [sleeps]. destruct (l_running l) eqn:Hr.
+      + destruct k as [|k].
+        * cbn [nth_error firstn]. change (run l []) with l. rewrite Hr. reflexivity.
+        * cbn [nth_error firstn length]. change (run l (f :: firstn k h)) with (run (poll l f) (firstn k h)).
+          rewrite IH. reflexivity.
+      + rewrite (run_stopped l _ Hr), Hr, andb_false_r. destruct k; reflexivity.
+  Qed.
+
+  Lemma sleeps_length l h : (length (sleeps cfg parse l h) <= S (length h))%nat.
+  Proof.
+    revert l; induction h as [|f h IH]; intros l; cbn [sleeps]; destruct (l_running l); simpl length; try lia.
+    specialize (IH (poll l f)). lia.
+  Qed.
+
+  (* init_file starts the refresh thread exactly for a readable, parsable document WITH a refresh rate, and the
+     thread starts from that document: its text, its mtime, its configuration, its rate *)
+  Lemma init_file_spec f :
+    match init_file cfg parse f with
+    | None => read f = None \/ exists t, read f = Some t /\ parse t = None
+    | Some (c, None) => exists t, read f = Some t /\ parse t = Some (c, None)
+    | Some (c, Some l) =>
+        exists t rate, read f = Some t /\ parse t = Some (c, Some rate) /\
+          l_rate l = rate /\ l_running l = true /\ r_text (l_st l) = t /\ r_mtime (l_st l) = stat f /\
+          r_active (l_st l) = c /\ r_nset (l_st l) = 0%nat
+    end.
+  Proof.
+    unfold Reloader.init_file. destruct (read f) as [t|]; [|left; reflexivity].
+    destruct (parse t) as [[c [rate|]]|] eqn:Hp.
+    - exists t, rate. cbn. repeat split; auto.
+    - exists t. auto.
+    - right. exists t. auto.
+  Qed.
+
+  Lemma honest_firstn h : forall pm pt k, honest pm pt h -> honest pm pt (firstn k h).
+  Proof.
+    induction h as [|f h IH]; intros pm pt k Hh; destruct k; cbn [firstn honest]; auto.
+    destruct f; cbn [honest] in Hh |- *.
+    - apply IH; exact Hh.
+    - destruct Hh as [A B]. split; [exact A|]. apply IH; exact B.
+    - destruct Hh as [A B]. split; [exact A|]. apply IH; exact B.
+  Qed.
+
+  (* end to end: init_file on version (m0, t0), then the polls of an honest history: the k-th interval slept is
+     the refresh rate of the last good version among the first k observations (up to the one that stops the thread) *)
+  Lemma thread_sleeps_last_good_rate m0 t0 a0 rate0 h l :
+    init_file cfg parse (File m0 t0) = Some (a0, Some l) -> l_rate l = rate0 -> honest m0 (Some t0) h ->
+    forall k, (k <= length h)%nat ->
+      nth_error (sleeps cfg parse l h) k =
+      if existsb stops (firstn k h) then None
+      else Some (snd (last_good (a0, rate0) (upto_stop (firstn k h)))).
+  Proof.
+    intros Hi Hrate Hh k Hk.
+    pose proof (init_file_spec (File m0 t0)) as S0. rewrite Hi in S0.
+    destruct S0 as (t & rate & Hrd & Hp & Hr & Hrun & Ht & Hm & Ha & Hn).
+    assert (Et : t = t0) by (cbn in Hrd; congruence). subst t. cbn in Hm.
+    assert (El : l = init_loop m0 t0 a0 rate0 0).
+    { destruct l as [[mt tx ac ns] lr lrun]. cbn in *. subst. reflexivity. }
+    rewrite sleeps_spec.
+    assert (Hle : Nat.leb k (length h) = true) by (apply Nat.leb_le; exact Hk).
+    rewrite Hle. cbn [andb].
+    assert (Hh' : honest m0 (Some t0) (firstn k h)) by (apply honest_firstn; exact Hh).
+    assert (Hp0 : parse t0 = Some (a0, Some rate0)) by congruence.
+    destruct (follows_history m0 t0 a0 rate0 0 (firstn k h) Hp0 Hh') as [X Y].
+    rewrite El. cbv zeta in X, Y. rewrite Y.
+    destruct (existsb stops (firstn k h)); cbn [negb]; [reflexivity|].
+    rewrite <- X. reflexivity.
   Qed.
 End ReloaderProofs.
